@@ -26,6 +26,23 @@ func init() {
 var ctxKeyVocab = []string{"k0", "k1", "lang"}
 var collectKinds = []string{"", "", "CollectMap", "SanitizeMapAndCollect", "Collect", "CollectList", "SanitizeListAndCollect"}
 
+// dupCtx passes one of the call's context keys a second time with another value: the later one counts.
+func dupCtx(r *Rng, op *Op) {
+	if len(op.Opts) == 0 || !r.P(0.25) {
+		return
+	}
+	o := op.Opts[r.Intn(len(op.Opts))]
+	if o.K != "ctx" {
+		return
+	}
+	o.Val = VS(o.Key + "-dup" + strconv.Itoa(r.Intn(2)))
+	if r.P(0.5) {
+		op.Opts = append(op.Opts, o)
+	} else {
+		op.Opts = append([]OptSpec{o}, op.Opts...)
+	}
+}
+
 func genExecOp(r *Rng, w *World, cfgs []GenCfg, pOpts float64) Op {
 	si := r.Intn(len(w.Schemas))
 	n := w.Schemas[si]
@@ -53,11 +70,48 @@ func genExecOp(r *Rng, w *World, cfgs []GenCfg, pOpts float64) Op {
 			op.Opts = append(op.Opts, OptSpec{K: "ctx", Key: k, Val: VS(k + "-v" + strconv.Itoa(r.Intn(3)))})
 		}
 	}
+	dupCtx(r, &op)
+	for i := range op.Opts {
+		op.Opts[i].Shared = r.P(0.3)
+	}
 	if r.P(pOpts / 2) {
 		op.Opts = append(op.Opts, OptSpec{K: "fmt", Fmt: "stamp"})
 	}
 	op.Rev = r.P(0.3)
 	return op
+}
+
+// withFront sends a parse operation on a struct-rooted schema through one of the front ends
+// (the record arrives as a JSON document, a form body or a query string; chunked reads yield
+// to the scheduler). zenv is left out: the process environment is legitimately shared.
+func withFront(r *Rng, w *World, op *Op, faults bool) {
+	if op.Kind != "parse" || op.Input.K != "m" {
+		return
+	}
+	n := w.Schemas[op.Schema]
+	if !(n.Kind == "struct" || (n.Kind == "ptr" && n.Elem.Kind == "struct")) {
+		return
+	}
+	io := &IOSpec{Chunk: Pick(r, []int{0, 1, 3, 7})}
+	if faults && r.P(0.15) {
+		io.TruncAt = 1 + r.Intn(24)
+		io.Fault = Pick(r, []string{"eof", "err", "err_with_data"})
+	}
+	switch Pick(r, []string{"zjson", "zhttp_json", "zhttp_form", "zhttp_query"}) {
+	case "zjson":
+		op.Front = "zjson"
+	case "zhttp_json":
+		op.Front = "zhttp"
+		io.Method, io.CT, io.BodyKind = Pick(r, []string{"POST", "PUT"}), "application/json", "json"
+	case "zhttp_form":
+		op.Front = "zhttp"
+		io.Method, io.CT, io.BodyKind = "POST", "application/x-www-form-urlencoded", "form"
+	case "zhttp_query":
+		op.Front = "zhttp"
+		in := op.Input
+		io.Method, io.BodyKind, io.QueryIn = "GET", "none", &in
+	}
+	op.IO = io
 }
 
 func genC07(r *Rng, tier string) *World {
@@ -70,6 +124,13 @@ func genC07(r *Rng, tier string) *World {
 		c.PPTErr = Pick(r, []float64{0, 0.3})
 		c.Coercers = r.P(0.4)
 		c.Opts = r.P(0.3)
+		if r.P(0.06) {
+			// long paths: the pooled path builder grows and is handed on
+			c.MaxElems = 2
+			cfgs = append(cfgs, c)
+			w.Schemas = append(w.Schemas, DeepChain(r, &c, DeepSegments(r)))
+			continue
+		}
 		cfgs = append(cfgs, c)
 		w.Schemas = append(w.Schemas, GenNode(r, &c, 0, true))
 	}
@@ -91,12 +152,18 @@ func genC07(r *Rng, tier string) *World {
 				op.IO = &IOSpec{BodyKind: "raw", Body: Pick(r, []string{`{"a":`, `[1]`, `null`, ``, `nope`})}
 			}
 		}
+		if op.Front == "" && r.P(0.2) {
+			withFront(r, w, &op, true)
+		}
 		if r.P(0.08) {
 			op.PanicAt = 1 + r.Intn(3)
 		}
 		ops = append(ops, op)
 	}
 	probe := genExecOp(r, w, cfgs, 0.3)
+	if r.P(0.2) {
+		withFront(r, w, &probe, false)
+	}
 	ops = append(ops, probe)
 	w.Tasks = [][]Op{ops}
 	return w
